@@ -15,6 +15,8 @@ import (
 
 type oblFn func(kind, goal string)
 
+const tokADD = token.ADD
+
 func (u *unit) mat(v Val, t types.Type) Val {
 	if v.K == nil {
 		return v
